@@ -151,4 +151,63 @@ func DAGMutex.registerMutexes
   loop 1 invariant forall i Int :: 0 <= i && i <= rangeindex ==> mutexes[i] != nil && has(d.mutexes.m, ids[i]) && mutexes[i] == d.mutexes.m[ids[i]]
   ensures unlocked(d.Mutex) && inv(d) && len(mutexes) == len(ids)
   ensures forall i Int :: 0 <= i && i < len(ids) ==> mutexes[i] != nil && has(d.mutexes.m, ids[i]) && mutexes[i] == d.mutexes.m[ids[i]]
+
+-- ---------------------------------------------------------------------------------------------------------------
+-- Counter: a value under valueMutex with two condition variables. "Only if": a Wait returns only in a state (under
+-- the lock) in which its condition holds. "If" (no lost wake-up): every change of the value in one direction is followed
+-- by a Broadcast on the condition variable of that direction - set / update record the promise while they hold the lock
+-- (owe), Set / Update deliver it right after (a function returns with the debts it was called with, unless declared).
+type Counter
+  monitor valueMutex guards value cond valueIncreasedCond, valueDecreasedCond
+  invariant 0 <= self.sleep_valueIncreasedCond && 0 <= self.sleep_valueDecreasedCond && 0 <= self.owed_valueIncreasedCond && 0 <= self.owed_valueDecreasedCond && 0 <= self.wake_valueIncreasedCond && 0 <= self.wake_valueDecreasedCond
+
+-- the subscribers run under the value mutex of the counter: they cannot call back into it (assumed: they do not reach it
+-- in another way either)
+assume-func github.com/iotaledger/hive.go/runtime/syncutils.Counter.notifySubscribers(c, oldValue, newValue)
+  requires c != nil
+
+func Counter.WaitIsBelow
+  requires c != nil && unlocked(c.valueMutex) && c.valueDecreasedCond != nil
+  modifies monitor(c)
+  loop 1 invariant held(c.valueMutex) && moninv(c)
+  ghost before unlock: assert c.value < threshold
+  ensures unlocked(c.valueMutex)
+
+func Counter.WaitIsAbove
+  requires c != nil && unlocked(c.valueMutex) && c.valueIncreasedCond != nil
+  modifies monitor(c)
+  loop 1 invariant held(c.valueMutex) && moninv(c)
+  ghost before unlock: assert c.value > threshold
+  ensures unlocked(c.valueMutex)
+
+func Counter.set
+  opt debts-change
+  requires c != nil && unlocked(c.valueMutex)
+  modifies monitor(c)
+  ghost before unlock: owe valueIncreasedCond if oldValue < newValue
+  ghost before unlock: owe valueDecreasedCond if oldValue > newValue
+  ensures unlocked(c.valueMutex)
+  ensures mydebt(c.valueIncreasedCond) == old(mydebt(c.valueIncreasedCond)) + (oldValue < newValue ? 1 : 0)
+  ensures mydebt(c.valueDecreasedCond) == old(mydebt(c.valueDecreasedCond)) + (oldValue > newValue ? 1 : 0)
+
+func Counter.Set
+  requires c != nil && unlocked(c.valueMutex) && c.valueDecreasedCond != nil && c.valueIncreasedCond != nil
+  modifies monitor(c)
+  ensures unlocked(c.valueMutex)
+
+func Counter.update
+  opt debts-change
+  opt assume-no-overflow
+  requires c != nil && unlocked(c.valueMutex)
+  modifies monitor(c)
+  ghost before unlock: owe valueIncreasedCond if delta >= 1
+  ghost before unlock: owe valueDecreasedCond if delta <= 0 - 1
+  ensures unlocked(c.valueMutex)
+  ensures mydebt(c.valueIncreasedCond) == old(mydebt(c.valueIncreasedCond)) + (delta >= 1 ? 1 : 0)
+  ensures mydebt(c.valueDecreasedCond) == old(mydebt(c.valueDecreasedCond)) + (delta <= 0 - 1 ? 1 : 0)
+
+func Counter.Update
+  requires c != nil && unlocked(c.valueMutex) && c.valueDecreasedCond != nil && c.valueIncreasedCond != nil
+  modifies monitor(c)
+  ensures unlocked(c.valueMutex)
 @*/
